@@ -14,6 +14,14 @@
 (*   reshape      a[(f div stride_k) mod shape_k ...], f the flat index    *)
 (*                (both orders; pytato's axis grouping is an optimisation  *)
 (*                of this rule)                                            *)
+(*   binary op    op(a[bidx], b[bidx]), broadcast: unit axes are indexed 0 *)
+(*   where        If(c[bidx], a[bidx], b[bidx])                            *)
+(*   reduction    red(op, r_k < len(axis_k), a[.. r_k at reduced axes ..]) *)
+(*   einsum       sum over the reduction indices of the product of the     *)
+(*                operands' subscripts (unit operand axes indexed 0)       *)
+(*   adv. index   a[.., idxarr[b] mod n, ..] with NumPy's placement of the  *)
+(*                broadcast index dimensions (first advanced position if    *)
+(*                the advanced items are contiguous, else in front)         *)
 (* A state is one instance (kind, operand shape(s), parameters); the       *)
 (* operand values are an injective valuation (flat position), so equality  *)
 (* of values is equality of the index mapping.                             *)
@@ -76,6 +84,71 @@ LowerReshape(old, new, order) ==
                  [q \in 1..Len(new) |-> Mul2(Ix(q - 1), C(Stride(new, q, order)))]]
   IN Sub("_in0", [j \in 1..Len(old) |->
         ModE(DivE(flat, C(Stride(old, j, order))), C(old[j]))])
+
+RECURSIVE DropAxes2(_, _, _)
+DropAxes2(s, axes, k) ==   \* remove the positions in axes (0-based set) from s
+  IF k > Len(s) THEN <<>>
+  ELSE (IF (k - 1) \in axes THEN <<>> ELSE <<s[k]>>) \o DropAxes2(s, axes, k + 1)
+
+Rv(n) == [k |-> "rv", n |-> n]
+InName(q) == IF q = 1 THEN "_in0" ELSE IF q = 2 THEN "_in1" ELSE "_in2"
+
+\* subscripts of an operand of shape s inside a result of rank d (right-aligned;
+\* an operand axis of length 1 is indexed 0)
+BSubs(s, d) == [j \in 1..Len(s) |-> IF s[j] = 1 THEN C(0) ELSE Ix(d - Len(s) + j - 1)]
+
+LowerBinop(op, s1, s2, rs) ==
+  LET a == Sub("_in0", BSubs(s1, Len(rs))) b == Sub("_in1", BSubs(s2, Len(rs))) IN
+  CASE op = "add" -> Add2(a, b)
+    [] op = "mul" -> Mul2(a, b)
+    [] op = "sub" -> [k |-> "sub2", a |-> a, b |-> b]
+    [] op = "lt"  -> Cmp("lt", a, b)
+
+LowerWhere(sc, s1, s2, rs) ==
+  IfE(Sub("_in0", BSubs(sc, Len(rs))), Sub("_in1", BSubs(s1, Len(rs))),
+      Sub("_in2", BSubs(s2, Len(rs))))
+
+\* reduction over the axes in the ascending sequence rax (0-based) of an operand of shape s
+LowerReduce(op, s, rax) ==
+  LET isred(j) == \E q \in 1..Len(rax) : rax[q] + 1 = j
+      rnum(j)  == CHOOSE q \in 1..Len(rax) : rax[q] + 1 = j
+      kept(j)  == Cardinality({w \in 1..(j - 1) : ~isred(w)})       \* result axis of operand axis j
+  IN [k |-> "red", op |-> op,
+      b |-> [q \in 1..Len(rax) |-> [v |-> q, lo |-> C(0), hi |-> C(s[rax[q] + 1])]],
+      a |-> Sub("_in0", [j \in 1..Len(s) |-> IF isred(j) THEN Rv(rnum(j)) ELSE Ix(kept(j))])]
+
+\* einsum: acc[a][j] = [t |-> "e" | "r", d |-> k]; ext[d+1] = extent of reduction index d
+LowerEinsum(acc, shapes, ext) ==
+  LET term(a) == Sub(InName(a), [j \in 1..Len(acc[a]) |->
+                   IF shapes[a][j] = 1 THEN C(0)
+                   ELSE IF acc[a][j].t = "e" THEN Ix(acc[a][j].d) ELSE Rv(acc[a][j].d + 1)])
+      prod == [k |-> "mul", c |-> [a \in 1..Len(acc) |-> term(a)]]
+  IN IF Len(ext) = 0 THEN prod
+     ELSE [k |-> "red", op |-> "sum",
+           b |-> [q \in 1..Len(ext) |-> [v |-> q, lo |-> C(0), hi |-> C(ext[q])]],
+           a |-> prod]
+
+\* advanced indexing: items int / nslice / arr (arr.n = operand number 2, 3 of the
+\* index arrays); ishapes[n] = shape of operand n
+LowerAdv(items, ashape, ishapes) ==
+  LET A      == AdvPositions(items)
+      aseq   == SeqOfSet(A)
+      bsh    == BShapeAll([q \in 1..Len(aseq) |->
+                   IF items[aseq[q]].t = "arr" THEN ishapes[items[aseq[q]].n] ELSE <<>>])
+      nb     == Len(bsh)
+      contig == AdvContiguous(items)
+      nsl(j) == Cardinality({q \in 1..(j - 1) : IsSliceItem(items[q])})
+      bstart == IF contig THEN nsl(SetMin(A)) ELSE 0
+      spos(j) == IF contig THEN (IF j < SetMin(A) THEN nsl(j) ELSE nsl(j) + nb)
+                 ELSE nb + nsl(j)
+      \* subscripts of an index array of shape s within the broadcast block
+      asub(s) == [z \in 1..Len(s) |-> IF s[z] = 1 THEN C(0)
+                                       ELSE Ix(bstart + nb - Len(s) + z - 1)]
+  IN Sub("_in0", [j \in 1..Len(items) |->
+        LET it == items[j] IN
+        CASE it.t = "int" -> ModE(C(it.v), C(ashape[j]))
+          [] it.t = "nslice" -> Add2(C(it.start), Mul2(C(it.step), Ix(spos(j))))
+          [] it.t = "arr" -> ModE(Sub(InName(it.n), asub(ishapes[it.n])), C(ashape[j]))])
 
 \* ---- instances -------------------------------------------------------------
 NSlices(n) ==   \* normalised slices as pytato stores them (CPython's indices())
@@ -155,6 +228,141 @@ LowerCorrect ==
                                           ELSE IF nm = "b" /\ n >= 2 THEN InVal(2, os[2])
                                           ELSE IF nm = "c" /\ n >= 3 THEN InVal(3, os[3])
                                           ELSE <<>>]
+      v == Val(g, inp, FALSE)
+  IN /\ v[n + 1] = v[n + 2]
+     /\ NoPoison(v[n + 2])
+     /\ Len(v[n + 1]) = SizeOf(rs)
+
+(***************************************************************************)
+(* Second family of instances (configs PtLowerB*.cfg, INIT Init2,          *)
+(* INVARIANT LowerCorrect2): arithmetic with broadcasting, where,          *)
+(* reductions, einsum and advanced indexing.                               *)
+(***************************************************************************)
+NonEmptyAscSeqs(d) ==   \* non-empty ascending sequences over 0..d-1
+  {q \in UNION {[1..k -> 0..(d - 1)] : k \in 1..d} :
+      \A i, j \in DOMAIN q : i < j => q[i] < q[j]}
+
+E(d) == [t |-> "e", d |-> d]
+R(d) == [t |-> "r", d |-> d]
+EinTemplates == {
+  <<<<E(0), R(0)>>, <<R(0)>>>>,                     \* ij,j->i
+  <<<<E(0), R(0)>>, <<R(0), E(1)>>>>,               \* ij,jk->ik
+  <<<<R(0)>>, <<R(0)>>>>,                           \* i,i->
+  <<<<E(0), E(1)>>, <<E(0), E(1)>>>>,               \* ij,ij->ij
+  <<<<E(1), E(0)>>>>,                               \* ij->ji
+  <<<<R(0), R(1)>>>>,                               \* ij->
+  <<<<E(0), R(0)>>, <<E(0), R(0)>>, <<R(0)>>>>,     \* ij,ij,j->i
+  <<<<>>, <<E(0)>>>>,                               \* ,i->i
+  <<<<E(0), R(0)>>, <<E(0)>>>> }                    \* ij,i->i  (reduction fixed by one operand)
+
+\* the lengths of all occurrences of index (t, d) in the operands
+OccLens(acc, shapes, t, d) ==
+  UNION {{shapes[a][j] : j \in {q \in DOMAIN acc[a] : acc[a][q].t = t /\ acc[a][q].d = d}}
+         : a \in DOMAIN acc}
+ExtOf(L) == IF L \ {1} = {} THEN 1 ELSE CHOOSE x \in L \ {1} : TRUE
+NumOf(acc, t) ==
+  LET ds == UNION {{acc[a][j].d : j \in {q \in DOMAIN acc[a] : acc[a][q].t = t}}
+                   : a \in DOMAIN acc}
+  IN IF ds = {} THEN 0 ELSE 1 + (CHOOSE m \in ds : \A z \in ds : z <= m)
+
+IdxArrShapes == {<<>>, <<1>>, <<2>>, <<2, 1>>, <<1, 2>>}
+AdvItems(n) == Ints(n) \cup {[t |-> "nslice", start |-> 0, stop |-> n, step |-> 1],
+                             [t |-> "nslice", start |-> n - 1, stop |-> -1, step |-> -1]}
+                       \cup {[t |-> "arr", n |-> q] : q \in {2, 3}}
+
+Init2 ==
+  \/ \E s1 \in Shapes, s2 \in Shapes, op \in {"add", "sub", "mul", "lt"} :
+        Broadcastable2(s1, s2) /\ inst = [kind |-> "binop", op |-> op, s1 |-> s1, s2 |-> s2]
+  \/ \E sc \in Shapes, s1 \in Shapes, s2 \in Shapes :
+        /\ Len(sc) <= 2 /\ Len(s1) <= 2 /\ Len(s2) <= 2
+        /\ BroadcastableAll(<<sc, s1, s2>>)
+        /\ inst = [kind |-> "where", sc |-> sc, s1 |-> s1, s2 |-> s2]
+  \/ \E s \in Shapes, op \in {"sum", "product", "max"} :
+        /\ Len(s) >= 1 /\ (op = "max" => \A j \in DOMAIN s : s[j] >= 1)
+        /\ \E rax \in NonEmptyAscSeqs(Len(s)) :
+              inst = [kind |-> "reduce", op |-> op, shape |-> s, rax |-> rax]
+  \/ \E acc \in EinTemplates :
+        \E shapes \in [DOMAIN acc -> Shapes] :
+          /\ \A a \in DOMAIN acc : Len(shapes[a]) = Len(acc[a])
+          /\ \A t \in {"e", "r"}, d \in 0..1 :
+                Cardinality(OccLens(acc, shapes, t, d) \ {1}) <= 1
+          /\ inst = [kind |-> "einsum", acc |-> acc, shapes |-> shapes]
+  \/ \E s \in Shapes :
+        /\ Len(s) \in 2..3 /\ \A j \in DOMAIN s : s[j] >= 1
+        /\ \E items \in [1..Len(s) -> UNION {AdvItems(s[j]) : j \in DOMAIN s}] :
+             /\ \A j \in DOMAIN s : items[j] \in AdvItems(s[j])
+             /\ \E j \in DOMAIN s : items[j].t = "arr" /\ items[j].n = 2
+             /\ \E sh2 \in IdxArrShapes, sh3 \in IdxArrShapes :
+                  /\ (\A j \in DOMAIN s : items[j].t = "arr" => items[j].n = 2) => sh3 = <<>>
+                  /\ LET used == {items[j].n : j \in {q \in DOMAIN s : items[q].t = "arr"}}
+                         ish == [q \in 1..3 |-> IF q = 2 THEN sh2 ELSE IF q = 3 THEN sh3 ELSE <<>>]
+                         lim(q) == CHOOSE n \in {s[j] : j \in {z \in DOMAIN s :
+                                       items[z].t = "arr" /\ items[z].n = q}} :
+                                     \A m \in {s[j] : j \in {z \in DOMAIN s :
+                                       items[z].t = "arr" /\ items[z].n = q}} : n <= m
+                     IN /\ BroadcastableAll([q \in 1..Cardinality(used) |->
+                                               ish[SeqOfSet(used)[q]]])
+                        /\ \E v2 \in [1..SizeOf(sh2) -> -(lim(2))..(lim(2) - 1)] :
+                           \E v3 \in IF 3 \in used
+                                       THEN [1..SizeOf(sh3) -> -(lim(3))..(lim(3) - 1)]
+                                       ELSE {<<>>} :
+                             inst = [kind |-> "adv", shape |-> s, items |-> items,
+                                     ishapes |-> ish, v2 |-> v2, v3 |-> v3,
+                                     nops |-> IF 3 \in used THEN 3 ELSE 2]
+
+OperandShapes2(i) ==
+  CASE i.kind = "binop" -> <<i.s1, i.s2>>
+    [] i.kind = "where" -> <<i.sc, i.s1, i.s2>>
+    [] i.kind = "reduce" -> <<i.shape>>
+    [] i.kind = "einsum" -> i.shapes
+    [] i.kind = "adv" -> [q \in 1..i.nops |-> IF q = 1 THEN i.shape ELSE i.ishapes[q]]
+
+EinResultShape(i) ==
+  [q \in 1..NumOf(i.acc, "e") |-> ExtOf(OccLens(i.acc, i.shapes, "e", q - 1))]
+EinExt(i) ==
+  [q \in 1..NumOf(i.acc, "r") |-> ExtOf(OccLens(i.acc, i.shapes, "r", q - 1))]
+
+ResultShape2(i) ==
+  CASE i.kind = "binop" -> BShape2(i.s1, i.s2)
+    [] i.kind = "where" -> BShapeAll(<<i.sc, i.s1, i.s2>>)
+    [] i.kind = "reduce" -> DropAxes2(i.shape, SeqRange(i.rax), 1)
+    [] i.kind = "einsum" -> EinResultShape(i)
+    [] i.kind = "adv" -> IndexResultShape(i.items, i.shape, i.ishapes)
+
+HLNode2(i, rs) ==
+  CASE i.kind = "binop" -> [kind |-> "binop", op |-> i.op, x1 |-> [n |-> 1], x2 |-> [n |-> 2],
+                            shape |-> rs, dtype |-> "f8"]
+    [] i.kind = "where" -> [kind |-> "where", c |-> [n |-> 1], t |-> [n |-> 2], e |-> [n |-> 3],
+                            shape |-> rs, dtype |-> "f8"]
+    [] i.kind = "reduce" -> [kind |-> "reduce", op |-> i.op, x |-> 1, axes |-> i.rax,
+                             shape |-> rs, dtype |-> "f8"]
+    [] i.kind = "einsum" -> [kind |-> "einsum", args |-> [a \in DOMAIN i.acc |-> a],
+                             acc |-> i.acc, nred |-> NumOf(i.acc, "r"),
+                             shape |-> rs, dtype |-> "f8"]
+    [] i.kind = "adv" -> [kind |-> "index", a |-> 1, idx |-> i.items, shape |-> rs,
+                          dtype |-> "f8"]
+
+Lowered2(i, rs) ==
+  CASE i.kind = "binop" -> LowerBinop(i.op, i.s1, i.s2, rs)
+    [] i.kind = "where" -> LowerWhere(i.sc, i.s1, i.s2, rs)
+    [] i.kind = "reduce" -> LowerReduce(i.op, i.shape, i.rax)
+    [] i.kind = "einsum" -> LowerEinsum(i.acc, i.shapes, EinExt(i))
+    [] i.kind = "adv" -> LowerAdv(i.items, i.shape, i.ishapes)
+
+LowerCorrect2 ==
+  LET os == OperandShapes2(inst)
+      n  == Len(os)
+      rs == ResultShape2(inst)
+      ins == [q \in 1..n |-> InNode(q, os[q])]
+      g  == [nodes |-> ins \o <<HLNode2(inst, rs), IL(Lowered2(inst, rs), Bind(n), rs)>>,
+             outs |-> <<>>, funcs |-> <<>>]
+      data(q) == IF q <= n THEN InVal(q, os[q]) ELSE <<>>
+      inp == [nm \in {"a", "b", "c"} |->
+                IF inst.kind = "adv" /\ nm = "b" THEN inst.v2
+                ELSE IF inst.kind = "adv" /\ nm = "c" THEN inst.v3
+                ELSE IF inst.kind = "where" /\ nm = "a"
+                     THEN [f \in 1..SizeOf(os[1]) |-> f % 2]      \* a boolean condition
+                ELSE data(IF nm = "a" THEN 1 ELSE IF nm = "b" THEN 2 ELSE 3)]
       v == Val(g, inp, FALSE)
   IN /\ v[n + 1] = v[n + 2]
      /\ NoPoison(v[n + 2])
